@@ -30,9 +30,7 @@ Case == TraceLog[cse]
 Out  == Case.outs[oi]
 TOpt == [omitnil |-> Case.o.omitnil, omitempty |-> Case.o.omitempty, sort |-> Case.o.sort]
 
-\* The JSON reader of TLC refuses documents nested deeper than 255, so the harness writes a chain of single-child
-\* containers as one node [t |-> "wrap", wk |-> <<0 = array | 1 = object ...>>, ks |-> <<key ...>>, inner |-> tree]
-\* (outermost first); Expand restores the tree.
+\* The JSON reader of TLC refuses documents nested deeper than 255: deep trees arrive compressed and are expanded here.
 RECURSIVE Expand(_), ChainFrom(_, _, _)
 \* a deep spine is written by the harness as one node [t |-> "chain", lv |-> <<levels, outermost first>>, inner |-> tree]; a level is
 \* [k |-> 0 array | 1 object, pre, post |-> siblings before / after the spine member, key, pk, qk |-> the keys]
